@@ -64,6 +64,12 @@ def main(tier, seed):
                 p = rand_prog(rng, grammar=True)
                 if has_input_cmd(p): k += 1; continue
                 if rng.random() < 0.1: p = []
+                if rng.random() < 0.12:
+                    # several live stacks with one-, two- and three-digit indices: the order of the `state` display
+                    idxs = rng.sample([3, 4, 9, 10, 11, 19, 20, 30, 99, 100, 101], rng.randint(3, 5))
+                    p = []
+                    for j in idxs: p += [push(rng.randint(1, 9)), (1, 1, j, None)] if j != 3 else [push(rng.randint(1, 9))]
+                    p += [(5, 1, rng.choice(idxs), None)] + idiom_print(rng)
                 script = rand_script(rng, len(p))
             k += 1
             src = render_prog(p, rng.choice([" ", "\n", "  "]))
